@@ -2513,8 +2513,8 @@ func hasNestedReturn(m *wmodule) bool {
 	return false
 }
 
-// hasMultiSpill: is some by-value array (a `let` binding or a by-value parameter) read with a run-time index at two or
-// more places of one function?  The decidable shape of the recorded SPIR-V defect C01-spv-spill-stored-once (the value is
+// hasMultiSpill: is some by-value array (a `let` binding or a by-value parameter) read at two or more places of one
+// function, at least once with a run-time index?  The decidable shape of the recorded SPIR-V defect C01-spv-spill-stored-once (the value is
 // stored to its spill variable only where the first such access is emitted).
 func hasMultiSpill(m *wmodule) bool {
 	check := func(f *wfunc) bool {
@@ -2524,14 +2524,18 @@ func hasMultiSpill(m *wmodule) bool {
 				byValue[p.name] = true
 			}
 		}
-		count := map[string]int{}
+		count, total := map[string]int{}, map[string]int{}
 		var we func(e *wexpr)
 		we = func(e *wexpr) {
 			if e == nil {
 				return
 			}
-			if e.k == "idx" && len(e.args) == 2 && e.args[0].k == "var" && byValue[e.args[0].name] && e.args[1].k != "lit" {
-				count[e.args[0].name]++
+			if e.k == "idx" && len(e.args) == 2 && e.args[0].k == "var" && byValue[e.args[0].name] {
+				// once spilled, constant indices read the spill variable too
+				total[e.args[0].name]++
+				if e.args[1].k != "lit" {
+					count[e.args[0].name]++
+				}
 			}
 			for _, a := range e.args {
 				we(a)
@@ -2563,8 +2567,8 @@ func hasMultiSpill(m *wmodule) bool {
 			}
 		}
 		ws(f.body)
-		for _, n := range count {
-			if n >= 2 {
+		for name, n := range count {
+			if n >= 1 && total[name] >= 2 {
 				return true
 			}
 		}
